@@ -22,6 +22,8 @@ func main() {
 		verify(os.Args[2:])
 	case "check":
 		os.Exit(check(os.Args[2:]))
+	case "loops":
+		loops(os.Args[2:])
 	default:
 		fmt.Fprintln(os.Stderr, "unknown command")
 		os.Exit(2)
@@ -85,4 +87,21 @@ func check(args []string) int {
 		}
 	}
 	return vc.RunCheck(vc.CheckConfig{Property: *prop, Tier: *tier, Seed: seed, Repo: *repo, VerifDir: *verif, Timeout: to, Out: os.Stdout})
+}
+
+// loops: list the loop ordinals of a function (for writing "loop k invariant" clauses)
+func loops(args []string) {
+	fs := flag.NewFlagSet("loops", flag.ExitOnError)
+	repo := fs.String("repo", "/repo", "repository root")
+	pkg := fs.String("pkg", "github.com/goplus/gogen", "package path")
+	fn := fs.String("func", "", "function name")
+	fs.Parse(args)
+	g, err := vc.Load(*repo, []string{"/verif/ext", "/verif/specs"})
+	if err != nil {
+		fmt.Fprintln(os.Stderr, "load:", err)
+		os.Exit(2)
+	}
+	for _, l := range g.Loops(*pkg, *fn) {
+		fmt.Println(l)
+	}
 }
